@@ -1,10 +1,15 @@
 (* C41 Queuing records exactly the program's operations in order (single thread).
-   Statements only; every proof is `exact <lemma>` from Disc/QueuingProofs.v. *)
-From Coq Require Import List ZArith Bool.
+   Statements only; every proof is `exact <lemma>` from Disc/QueuingProofs.v.
+   exec = the stack machine transcribing core/queuing.py (semantics 1);
+   den/replay = the lexical denotation (semantics 2): every creation/consumption event is attributed
+   to the innermost enclosing With, to no context under Stop. *)
+From Coq Require Import List ZArith Bool Sorted.
 From PLV Require Import Disc.QueuingModel Disc.QueuingProofs.
 Import ListNotations.
 Open Scope Z_scope.
 
+(* For ALL programs and ALL start states: the machine's final heap, queues, stack and exception flag
+   are those of the lexical denotation started in the context on top of the stack. *)
 Theorem record_is_denotation : forall p s,
   match den p (hd_error (stack s)) (heap s) (length (queues s)) with
   | (evs, h', n', r) =>
@@ -12,3 +17,89 @@ Theorem record_is_denotation : forall p s,
   end.
 Proof. exact exec_den. Qed.
 Print Assumptions record_is_denotation.
+
+(* The context stack is restored after any program, whether or not an exception escapes it. *)
+Theorem stack_restored : forall p s, stack (fst (exec p s)) = stack s.
+Proof. exact exec_stack. Qed.
+Print Assumptions stack_restored.
+
+(* Nothing is recorded in any existing context under stop_recording (whatever the body does,
+   exceptions included); contexts opened inside the block are new entries behind the old ones. *)
+Theorem nothing_under_stop : forall b s,
+  firstn (length (queues s)) (queues (fst (exec (Stop b) s))) = queues s.
+Proof. exact stop_frame. Qed.
+Print Assumptions nothing_under_stop.
+
+(* ... and if the body opens no context of its own, no queue changes at all. *)
+Theorem nothing_under_stop_no_with : forall b s, no_with b = true ->
+  queues (fst (exec (Stop b) s)) = queues s.
+Proof. exact stop_nowith. Qed.
+Print Assumptions nothing_under_stop_no_with.
+
+(* Operators created inside an inner With are recorded only there: every queue that existed when
+   the inner context was entered is unchanged when it exits. *)
+Theorem inner_context_isolated : forall b s,
+  firstn (length (queues s)) (queues (fst (exec (With b) s))) = queues s.
+Proof. exact with_frame. Qed.
+Print Assumptions inner_context_isolated.
+
+(* In general only the innermost active context can change. *)
+Theorem only_innermost_changes : forall p s,
+  (length (queues s) <= length (queues (fst (exec p s))))%nat /\
+  forall c, (c < length (queues s))%nat -> hd_error (stack s) <> Some c ->
+            nth_error (queues (fst (exec p s))) c = nth_error (queues s) c.
+Proof. exact exec_frame. Qed.
+Print Assumptions only_innermost_changes.
+
+(* Program order: every queue is strictly increasing in creation number. *)
+Theorem recorded_in_program_order : forall p q,
+  In q (queues (fst (exec p init))) -> StronglySorted Z.lt q.
+Proof. exact exec_sorted. Qed.
+Print Assumptions recorded_in_program_order.
+
+Theorem program_order_invariant : forall p s, wf s -> wf (fst (exec p s)).
+Proof. exact exec_wf. Qed.
+Print Assumptions program_order_invariant.
+
+(* A newly created operator/measurement is appended to the innermost active context. *)
+Theorem created_is_recorded_last : forall s m c rest q,
+  wf s -> stack s = c :: rest -> nth_error (queues s) c = Some q ->
+  nth_error (queues (fst (exec (New m) s))) c = Some (q ++ [hlen (heap s)]).
+Proof. exact new_recorded. Qed.
+Print Assumptions created_is_recorded_last.
+
+(* Operands consumed by a wrapper constructor are recorded only through the wrapper: after the
+   constructor the wrapper is in the active queue, its operand(s) are not, and objects that are
+   neither removed nor the wrapper keep their membership. *)
+Theorem consumed_only_through_wrapper : forall s k r1 r2 pre d post c rest q,
+  wf s -> plan_wrap (heap s) k r1 r2 = Some (pre, d, post) ->
+  stack s = c :: rest -> nth_error (queues s) c = Some q ->
+  exists q', nth_error (queues (perform s pre d post)) c = Some q' /\
+    In (hlen (heap s)) q' /\
+    ~ In (r1 mod hlen (heap s)) q' /\
+    (k = KProd -> ~ In (r2 mod hlen (heap s)) q') /\
+    (forall y, ~ In y (pre ++ post) -> y <> hlen (heap s) -> (In y q' <-> In y q)).
+Proof. exact wrap_consumes. Qed.
+Print Assumptions consumed_only_through_wrapper.
+
+(* qp.apply re-queues: a copy (fresh identity) is appended at the end of the active queue. *)
+Theorem apply_requeues_copy : forall s r pre d c rest q,
+  wf s -> plan_apply (heap s) r = Some (pre, d) ->
+  stack s = c :: rest -> nth_error (queues s) c = Some q ->
+  fst (exec (Apply r) s) = perform s pre d [] /\
+  d = copy_desc (hget (heap s) (r mod hlen (heap s))) /\
+  nth_error (queues (perform s pre d [])) c = Some (q_remove_all pre q ++ [hlen (heap s)]).
+Proof. exact apply_requeues. Qed.
+Print Assumptions apply_requeues_copy.
+
+(* non-vacuity: a concrete program with a nested context, a stop block, wrappers, apply and an
+   exception unwinding through With and Stop *)
+Example concrete_program :
+  let p := With (Seq (New 0) (Seq (New 1) (Seq (Wrap KAdj 0 0) (Seq (Wrap KProd 1 2)
+           (Seq (Try (With (Seq (New 0) (Stop (Seq (New 0) Raise)))))
+           (Seq (Apply 0) (Stop (New 0)))))))) in
+  exec p init =
+  (mk [OBase false; OBase true; OWrap KAdj true [0]; OWrap KProd false [1; 2]; OBase false; OBase false;
+       OBase false; OBase false] [[3; 6]; [4]] [], false)
+  /\ wf init /\ no_with (Seq (New 0) Raise) = true.
+Proof. vm_compute. repeat split; constructor. Qed.
